@@ -46,7 +46,7 @@ PROPS = {
     "C17": dict(level="exploration"),
     "C18": dict(level="exploration"),
     "C19": dict(level="exploration", cli=True),
-    "C20": dict(level="exploration", cli=True, shards=(1, 1)),
+    "C20": dict(level="exploration", cli=True),
 }
 DEFAULT_SHARDS = (4, 16)
 DEFAULT_TIMEOUT = (900, 3600)
